@@ -21,7 +21,7 @@ CHECKS["C17"] = dict(
 CHECKS["C20"] = dict(
     level="exploration", engine="inputx",
     technique="exhaustive enumeration of the whole input range (every mCPU value, every cgroup shares value, a dense capacity interval plus structured families) on the real functions",
-    rule="every CPU request/limit 0..256000 mCPU on the reconstruction function; every capacity x oom_score_adj also with memory limits on and around the boundaries of the adjustment's request range and, for ~6000 structured values x 4 histories (fresh name, previous same-named instance exited but cached, previous instance running, pod restored from the persisted cache after a restart), through InsertContainer/GetResourceRequirements of a real cache; every cpu.shares value 2..262144, and every memory capacity of the family "
+    rule="every CPU request/limit 0..256000 mCPU on the reconstruction function; every capacity x oom_score_adj also with memory limits on and around the boundaries of the adjustment's request range and, for ~6000 structured values x 4 histories (fresh name, previous same-named instance exited but cached, previous instance running, pod restored from the persisted cache after a restart), through InsertContainer/GetResourceRequirements of a real cache (the reported OOM score adjustment rotating over 900, -997, 3, 999 and absent); every cpu.shares value 2..262144, and every memory capacity of the family "
          "(dense interval above 1 MiB + powers of two/ten with deltas + quadratic sweep to 16 TiB + real MemTotal values) x every "
          "Burstable oom_score_adj 3..999; non-trivial = distinct inputs whose encoding is not clamped (cpu) / distinct capacities",
     bound=dict(quick="cpu: full range; capacities: 2^18 dense + ~61k structured", thorough="cpu: full range; capacities: 2^22 dense + ~61k structured"),
@@ -66,7 +66,7 @@ CHECKS["C08"] = dict(
     level="exploration", engine="inputx",
     technique="exhaustive enumeration of (topology, every subset of online CPUs, every count, priority, flag set) on the real allocator against the stated contract; determinism across fresh allocators and map-iteration orders",
     rule="per generated topology: every subset of online CPUs as candidate set x every count 0..|set|+1 x 4 priorities x flag sets, for AllocateCpus and ReleaseCpus; "
-         "each input is run on 4-5 allocators (sorted, fresh, reverse and rotated map order) and all outcomes must agree; "
+         "each input is run on 5-6 allocators (sorted, a second sorted one, reverse and rotated map order - all long-lived, they see the whole request sequence - and one built anew for every request, so that an answer depending on earlier requests shows as a disagreement) and all outcomes must agree; "
          "non-trivial = inputs with 0 < cnt < |set| (the allocator actually has to choose)",
     bound=dict(quick="16 topologies of up to 8 CPUs (incl. hybrid + clustered across two packages, last-level cache groups in two packages, a two-die hybrid package whose hyperthreaded P-cores are each their own cluster), 6 flag sets", thorough="22 topologies of up to 12 CPUs, all 16 flag combinations + default"),
     assumptions=["map iteration order is controlled through the vgen map-range rewrite (sorted / reverse / rotate policies applied to all sites), not all per-site permutations",
@@ -145,9 +145,9 @@ CHECKS["C14"] = dict(
     level="model_checking",
     rule="(a) explicit-state BFS over NRI event sequences with known, never-seen and already-removed pod/container ids, duplicates and out-of-order lifecycle events - also events naming a container whose creation was refused, and updates that repeat the current resources or carry no resources message - on a real resource manager (both policies), every state extended by a "
          "canonical valid probe (run pod, create, start, stop, remove a fresh BestEffort container) that must be served; (b) every annotation key the plugins interpret x a menu of 32 values (empty, booleans, huge/negative numbers, "
-         "malformed YAML/JSON, null elements, 1 MiB strings) x container/pod/bare form, and every resource shape with an optional sub-message absent (also on a container the policy leaves alone: cpu+memory preserve), each through a full lifecycle with three updates (changed, identical, absent resources) + synchronize + reconfigure; "
+         "malformed YAML/JSON, null elements, 1 MiB strings) x container/pod/bare form, and every resource shape with an optional sub-message or scalar absent (no Linux, no resources, no cpu, no memory, no oom adjustment, no period, no quota, no shares, no limit; also on a container the policy leaves alone: cpu+memory preserve), each through a full lifecycle with three updates (changed, identical, absent resources) + synchronize + reconfigure; "
          "(c) memory-qos, memtierd and sgx-epc handlers x configurations x container shapes x annotation sets x request sequences (memtierd also x launch environment: no cgroup directory, no memtierd binary in PATH, a memtierd that starts), each followed by a valid probe request; oracle: no handler panics, the probe is served; non-trivial = states/cases beyond the well-formed lifecycle",
-    bound=dict(quick="6 scenarios depth 3 + ~3250 input cases + ~1000 side-plugin cases", thorough="6 scenarios depth 4 + same inputs"),
+    bound=dict(quick="6 scenarios depth 3 + ~3350 input cases + ~1000 side-plugin cases", thorough="6 scenarios depth 4 + same inputs"),
     assumptions=_RESMGR_ASSUME + ["a panic is observed through recover() around the handler call; log.Fatal/os.Exit in a handler would kill the worker and be reported as a dead worker"],
     stages=[dict(pkg="./pkg/resmgr", run="TestVerifC14", shards=4, quick=dict(deadline_s=420), thorough=dict(deadline_s=3000)),
             dict(pkg="./pkg/resmgr", run="TestVerifC14Inputs", shards=16),
@@ -159,7 +159,7 @@ CHECKS["C14"] = dict(
 CHECKS["C18"] = dict(
     level="exploration", engine="inputx",
     technique="exhaustive enumeration of annotation maps (every subset of forms, several container-name pairs) and of every iteration permutation of the annotation map and the derived map, against a reference resolver",
-    rule="cache GetEffectiveAnnotation and sgx-epc parseEpcLimit (sgx-epc also under all permutations of the annotation map): every subset of {container-specific for C, for each of 4-5 other containers (names that are prefixes/suffixes of each other), pod-wide, bare} x every choice of which of the three forms for C carry an EMPTY value (present-but-empty still wins) x 5-6 target names x keys (with decoy keys); "
+    rule="cache GetEffectiveAnnotation (every 37th map also on the pod as a second cache instance restores it from the state directory) and sgx-epc parseEpcLimit (also under all permutations of the annotation map): every subset of {container-specific for C, for each of 4-5 other containers (names that are prefixes/suffixes of each other), pod-wide, bare} x every choice of which of the three forms for C carry an EMPTY value (present-but-empty still wins) x 5-6 target names x keys (with decoy keys); "
          "memory-qos and memtierd: every combination of class (incl. the empty class) / memory.high / memory.swap.max at pod level, container level or both, plus annotations addressed to another container, "
          "each evaluated under ALL permutations of the annotation map and of the derived map (<= 5! each, through the vgen map-range rewrite); non-trivial = maps with at least one relevant annotation (two for the side plugins)",
     bound=dict(quick="~17000 maps for cache/sgx-epc; ~1500 maps x up to 120x24 orders for the side plugins", thorough="same (the family is enumerated completely in both tiers)"),
@@ -175,7 +175,7 @@ CHECKS["C19"] = dict(
     technique="exhaustive enumeration of an expression grammar x subjects against an independent reference evaluator; exhaustive enumeration of ordered balloon-type lists x container kinds on a real balloons resource manager",
     rule="expressions: 39 keys (plain, nested pod/labels/tags, joint keys with default/custom/invalid separators, invalid keys) x 12 operators x value lists of length 0-2 (0-3 thorough) over 8 atoms x 5 subjects (pods and containers); "
          "clauses: negation pairs complementary, joint-key values, validated expressions resolve without error, documented operator semantics, affinity weights clamped; "
-         "balloon-type selection: all permutations of user types (+ explicit reserved/default placement) x container kinds, each on the configuration as applied and again after an update that validation refuses and that carries other type names; pods with two containers that resolve to different types, in both creation orders; non-trivial = accepted expressions / containers placed",
+         "balloon-type selection: all permutations of user types (+ explicit reserved/default placement) x container kinds, each on the configuration as applied and again after an update that validation refuses and that carries other type names, and after an accepted update that only permutes the types (the policy starts with the reverse order); pods with two containers that resolve to different types, in both creation orders; non-trivial = accepted expressions / containers placed",
     bound=dict(quick="~170k expression evaluations; 6 type orders x 12 container kinds", thorough="~1M expression evaluations; 24 type orders x 12 container kinds"),
     assumptions=["the documentation does not describe the '*' wildcard accepted by Equals/In; inputs with a '*' value are judged for negation symmetry only"],
     stages=[dict(pkg="./pkg/resmgr/cache", run="TestVerifC19", shards=1),
@@ -189,13 +189,14 @@ CHECKS["C15"] = dict(
          "bound; oracle: every proxied cache/policy access happens under the resource manager lock, no deadlock, no panic, final state equals the final state of some sequential order, and a reply is still what its handler returned when it is consumed "
          "(a scheduling point of its own between the handler's return and the consumption of its reply models the transport); "
          "(B) InsertPod + GetPodResources vs the fetch goroutine vs the environment (go/chan operations rewritten to scheduler calls), incl. that only handler threads write the state directory; (B2) the pod-resource LIST that Synchronize starts: RefreshPods + RefreshContainers vs the LIST goroutine (deliver or fail) vs the per-pod fetch goroutines on a real cache (cache.go's channel receive is a scheduling point), oracle: per container the pod resources and the memoised topology hints equal those of the run whose reply is in the channel before the refresh starts; states = schedules executed, transitions = scheduling points; non-trivial = schedules; "
-         "(C) corroboration, not part of the decision: the same menus run free (real goroutines, no scheduler, 30/300 repetitions each) in a -race binary, replies consumed after the handler returns; a race-detector report is a violation, silence adds nothing to the coverage statement",
+         "(C) corroboration, not part of the decision: the same menus, and the fetch bodies of (B), run free (real goroutines, no scheduler, 30/300 repetitions each) in a -race binary, replies consumed after the handler returns; a race-detector report is a violation, silence adds nothing to the coverage statement",
     bound=dict(quick="preemption bound 2", thorough="preemption bound 3 (pipeline) / unbounded (fetch) / 5 (LIST)"),
     assumptions=["scheduling points: resmgr lock operations, proxied cache/policy calls, the hand-over of a reply, goroutine creation and channel operations in cache/pod.go and cache/cache.go (the communication of a polling select stays native); plain memory accesses between points are atomic for the exhaustive part (unsynchronised accesses between points are only sampled, by the free-running race-detector pass)",
                  "menus run with the metrics exporter off and on: with it on, the policy metrics are polled through a private registry gatherer on a scheduler thread of its own and pkg/metrics' mutex is the scheduler-aware shim, so metrics.Block() in updateTopologyZones and the collector's callback into the policy take part in the schedules"],
-    stages=[dict(pkg="./pkg/resmgr/cache", run="TestVerifC15Fetch", shards=1),
-            dict(pkg="./pkg/resmgr/cache", run="TestVerifC15List", shards=1),
+    stages=[dict(pkg="./pkg/resmgr/cache", run="TestVerifC15Fetch", shards=1, quick=dict(timeout_s=600), thorough=dict(timeout_s=1800)),
+            dict(pkg="./pkg/resmgr/cache", run="TestVerifC15List", shards=1, quick=dict(timeout_s=600), thorough=dict(timeout_s=3600)),
             dict(pkg="./pkg/resmgr", run="TestVerifC15", shards=16, quick=dict(deadline_s=420), thorough=dict(deadline_s=3000)),
             # corroboration only (sampling): the same menus free-running under the race detector
-            dict(pkg="./pkg/resmgr", run="TestVerifC15Race", shards=4, race=True)],
+            dict(pkg="./pkg/resmgr", run="TestVerifC15Race", shards=4, race=True),
+            dict(pkg="./pkg/resmgr/cache", run="TestVerifC15FetchRace", shards=1, race=True, quick=dict(timeout_s=900), thorough=dict(timeout_s=1800))],
 )
